@@ -25,26 +25,37 @@ def forget(op, tr, b, elem, L=3, fb=1, r="s1", tier="quick"):
     H(name, call, ["C07"], tier=tier, unwind=unwind_for(elem, capv + 1), dims=dict(L=L, cap=capv, op=op, front_back_max=fb, elem=elem, backend=b, traits=tr, shape_symbolic=True), role="c07_forget_%s" % op.lower())
 
 
-def fault(scn, tr, b, elem, L=3, fb=1, r="s1", fmax=5, tier="quick"):
+def fault(scn, tr, b, elem, L=3, fb=1, r="s1", fmax=5, tier="quick", shape=None):
+    """shape=(len, start, end, r): concrete (needed for splice scenarios on resizable storage)"""
     capv = L + 2
-    name = "c06_fault_%s__%s_%s_%s__L%d_f%d" % (scn.lower(), tr, b, elem, L, fmax)
-    call = "c06::fault_h::<%s, %s, %s>(%s, c06::Scn::%s, %d)" % (TR[tr], bk(b, elem, capv), elem, P2(capv, "s%d" % L, "s%d" % L, "s%d" % L, fb, r), scn, fmax)
-    H(name, call, ["C06"], tier=tier, unwind=unwind_for(elem, capv + 1), dims=dict(L=L, cap=capv, scenario=scn, fault_point="1..=%d (symbolic)" % fmax, elem=elem, backend=b, traits=tr, shape_symbolic=True), role="c06_fault_%s" % scn.lower())
+    if shape is None:
+        p2 = P2(capv, "s%d" % L, "s%d" % L, "s%d" % L, fb, r)
+        tag = "L%d" % L
+    else:
+        ln, st, en, rr = shape
+        p2 = P2(capv, ln, st, en, fb, rr)
+        tag = "l%d_s%d_e%d_r%d" % shape
+    name = "c06_fault_%s__%s_%s_%s__%s_f%d" % (scn.lower(), tr, b, elem, tag, fmax)
+    call = "c06::fault_h::<%s, %s, %s>(%s, c06::Scn::%s, %d)" % (TR[tr], bk(b, elem, capv), elem, p2, scn, fmax)
+    H(name, call, ["C06"], tier=tier, unwind=unwind_for(elem, capv + 1), dims=dict(L=L, cap=capv, shape=shape or "symbolic", scenario=scn, fault_point="1..=%d (symbolic)" % fmax, elem=elem, backend=b, traits=tr, shape_symbolic=shape is None), role="c06_fault_%s" % scn.lower())
 
 
-def faultc(scn, tr, b, elem, L=2, fmax=4, tier="quick"):
+def faultc(scn, tr, b, elem, L=2, fmax=4, tier="quick", ylen=None):
+    """ylen: concrete length of the source vector (needed when it is cloned onto resizable storage)"""
     capv = L + 1
-    name = "c06_faultclone_%s__%s_%s_%s__L%d_f%d" % (scn.lower(), tr, b, elem, L, fmax)
-    call = "c06::fault_clone_h::<%s, %s, %s>(%s, c06::CScn::%s, %d)" % (TR[tr], bk(b, elem, capv), elem, P(capv, "s%d" % L, "s%d" % L, capv, "s%d" % L, "s%d" % L), scn, fmax)
-    H(name, call, ["C06"], tier=tier, unwind=unwind_for(elem, capv + 1), dims=dict(L=L, cap=capv, scenario=scn, fault_point="1..=%d (symbolic)" % fmax, elem=elem, backend=b, traits=tr, shape_symbolic=True), role="c06_faultclone_%s" % scn.lower())
+    yl = ("s%d" % L) if ylen is None else ylen
+    name = "c06_faultclone_%s__%s_%s_%s__L%d_y%s_f%d" % (scn.lower(), tr, b, elem, L, yl, fmax)
+    call = "c06::fault_clone_h::<%s, %s, %s>(%s, c06::CScn::%s, %d)" % (TR[tr], bk(b, elem, capv), elem, P(capv, "s%d" % L, "s%d" % L, capv, yl, "s%d" % L), scn, fmax)
+    H(name, call, ["C06"], tier=tier, unwind=unwind_for(elem, capv + 1), dims=dict(L=L, cap=capv, source_len=yl, scenario=scn, fault_point="1..=%d (symbolic)" % fmax, elem=elem, backend=b, traits=tr, shape_symbolic=ylen is None), role="c06_faultclone_%s" % scn.lower())
 
 
-def liar(typed, tr, b, elem, L=2, tier="quick", start=None, end=None):
+def liar(typed, tr, b, elem, L=2, tier="quick", start=None, end=None, ln=None):
     capv = L + 4
     start = "s%d" % L if start is None else start
     end = "s%d" % L if end is None else end
-    name = "c06_liar_%s__%s_%s_%s__L%d_s%s_e%s" % ("typed" if typed else "erased", tr, b, elem, L, start, end)
-    call = "c06::liar_h::<%s, %s, %s>(%s, %s)" % (TR[tr], bk(b, elem, capv), elem, P2(capv, "s%d" % L, start, end, 0, "s2"), "true" if typed else "false")
+    ln = "s%d" % L if ln is None else ln
+    name = "c06_liar_%s__%s_%s_%s__L%d_l%s_s%s_e%s" % ("typed" if typed else "erased", tr, b, elem, L, ln, start, end)
+    call = "c06::liar_h::<%s, %s, %s>(%s, %s)" % (TR[tr], bk(b, elem, capv), elem, P2(capv, ln, start, end, 0, "s2"), "true" if typed else "false")
     H(name, call, ["C06"], tier=tier, unwind=unwind_for(elem, capv + 1), dims=dict(L=L, cap=capv, len_delta="-2..=+2 (symbolic)", yielded="0..=2", elem=elem, backend=b, traits=tr, shape_symbolic=True), role="c06_liar")
 
 
@@ -66,7 +77,8 @@ def define():
     chain("none", "stack", "W8D", (1, 2, 1), [("RemoveDrop", 1, 0, 1, 0), ("RemovePush", 1, 0, 0, 0)])
     chain("none", "heap", "W8", (2, 1, 1), [("RemovePush", 0, 1, 1, 0), ("Clear", 1, 0, 0, 0)])
     chain("none", "reloc", "B3D", (2, 1, 0), [("SwapRemoveInsert", 0, 2, 0, 0), ("PopPush", 1, 2, 0, 0)])
-    H("c03_cloneown__clone_heap_B3D", "c03::clone_own::<dyn Cloneable, Heap, B3D>(%s)" % P(2, "s2", 0), ["C03", "C08"], unwind=unwind_for("B3D", 4), dims=dict(L=2, elem="B3D", shape_symbolic=True), role="c03_cloneown")
+    H("c03_cloneown__clone_stack_B3D", "c03::clone_own::<dyn Cloneable, Stack<6>, B3D>(%s)" % P(2, "s2", 0), ["C03", "C08"], unwind=unwind_for("B3D", 4), dims=dict(L=2, elem="B3D", backend="stack", shape_symbolic=True), role="c03_cloneown")
+    H("c03_cloneown__clone_heap_B3D__l2", "c03::clone_own::<dyn Cloneable, Heap, B3D>(%s)" % P(2, 2, 0), ["C03", "C08"], unwind=unwind_for("B3D", 4), dims=dict(L=2, len=2, elem="B3D", backend="heap", shape_symbolic=False, payloads_symbolic=True), role="c03_cloneown")
     n = 0
     for (s1, s2) in itertools.product(STEPS, repeat=2):
         for (a, b2, c) in ((0, 1, 2), (1, 2, 0)):
@@ -74,28 +86,52 @@ def define():
             chain("none", "heap" if n % 3 else "stack", "B3D", (2, 2, 1), [(s1, a, b2, n % 2, 0), (s2, b2, c, 0, n % 2)], tier="rot32")
     # ---- C07
     for i, op in enumerate(FOPS):
-        forget(op, "none", "heap" if i % 2 == 0 else "stack", "B3D" if i % 3 else "W8D")
+        # a splice iterator that is dropped normally reserves f(range, r) elements: symbolic shapes only on fixed-capacity storage
+        forget(op, "none", "heap" if (i % 2 == 0 and op != "SpliceItem") else "stack", "B3D" if i % 3 else "W8D")
     for op in FOPS:
         for b in ("heap", "stack", "reloc"):
+            if op == "SpliceItem" and b != "stack":
+                continue
             for elem in ("B3D", "W8D", "H2"):
                 forget(op, "none", b, elem, L=3, fb=2, tier="thorough")
     # ---- C06
     for i, scn in enumerate(SCNS):
-        fault(scn, "none", "heap" if i % 2 == 0 else "stack", "B3D")
+        if "Splice" in scn:
+            fault(scn, "none", "stack", "B3D")
+            fault(scn, "none", "heap", "B3D", shape=(3, 1, 2, 2), tier="quick" if scn == "SpliceRaw" else "rot3")
+        else:
+            fault(scn, "none", "heap" if i % 2 == 0 else "stack", "B3D")
     for i, scn in enumerate(CSCNS):
-        faultc(scn, "clone", "heap" if i % 2 == 0 else "stack", "B3D")
+        if scn == "SpliceLazy":
+            faultc(scn, "clone", "stack", "B3D")     # splice position symbolic: fixed-capacity storage only
+        elif scn == "CloneVec":
+            faultc(scn, "clone", "stack", "B3D")
+            faultc(scn, "clone", "heap", "B3D", ylen=2)
+        else:
+            faultc(scn, "clone", "heap" if i % 2 == 0 else "stack", "B3D")
     liar(False, "none", "stack", "B3D")
     liar(True, "none", "stack", "B3D", tier="rot2")
-    liar(False, "none", "heap", "B3D", L=2, start=1, end=2)
+    liar(False, "none", "heap", "B3D", L=2, ln=2, start=1, end=2, tier="rot2")
     for scn in SCNS:
         for b in ("heap", "stack", "reloc"):
             for elem in ("B3D", "W8D"):
-                fault(scn, "none", b, elem, L=3, fb=2, r="s2", fmax=7, tier="thorough")
+                if "Splice" in scn and b != "stack":
+                    for shape in ((3, 1, 2, 2), (3, 0, 3, 1), (2, 1, 1, 2), (3, 0, 1, 0)):
+                        fault(scn, "none", b, elem, L=3, fb=1, fmax=7, tier="thorough", shape=shape)
+                else:
+                    fault(scn, "none", b, elem, L=3, fb=2, r="s2", fmax=7, tier="thorough")
     for scn in CSCNS:
         for b in ("heap", "stack", "reloc"):
             for elem in ("B3D", "W8D"):
-                faultc(scn, "clone", b, elem, L=3, fmax=5, tier="thorough")
+                if scn == "SpliceLazy" and b != "stack":
+                    continue
+                if scn == "CloneVec" and b != "stack":
+                    for yl in (1, 2, 3):
+                        faultc(scn, "clone", b, elem, L=3, fmax=5, tier="thorough", ylen=yl)
+                else:
+                    faultc(scn, "clone", b, elem, L=3, fmax=5, tier="thorough")
     for typed in (False, True):
-        for b in ("stack", "heap"):
-            for elem in ("B3D", "W8D"):
-                liar(typed, "none", b, elem, L=2, tier="thorough")
+        for elem in ("B3D", "W8D"):
+            liar(typed, "none", "stack", elem, L=2, tier="thorough")
+            for (ln, st, en) in ((2, 1, 2), (2, 0, 0), (1, 0, 1)):
+                liar(typed, "none", "heap", elem, L=2, ln=ln, start=st, end=en, tier="thorough")
